@@ -61,6 +61,11 @@ func (c *concurrencyOperator) Next(ctx context.Context) ([]model.StepVector, err
 	r, ok := <-c.buffer
 	verifhook.Point("concurrent.recv", 0)
 	if !ok {
+		// The buffer is also closed after a cancellation, whose error message may
+		// have been taken by drainBufferOnCancel: a cancelled stream did not end.
+		if err := ctx.Err(); err != nil {
+			return nil, err
+		}
 		return nil, nil
 	}
 	if r.err != nil {
